@@ -72,15 +72,20 @@ def appendToChunk (cks : List Chunk) (cid : Nat) (tss : List Int) : List Chunk :
 def listMin (l : List Int) (d : Int) : Int := l.foldl (fun a b => if b < a then b else a) d
 def listMax (l : List Int) (d : Int) : Int := l.foldl (fun a b => if a < b then b else a) d
 
-/-- `newChk` of `cindex.onWrite`: the chunk is new to the index — the source has no entry
-(`Generated.C07.onWriteUnknownSourceSetsNewChk`) or its last known chunk is another one -/
-def onWriteNewChk (m : CMap) (src : Src) (cid : Nat) : Bool :=
+/-- `newChk` of `cindex.onWrite` for a batch that follows `beforeLen` records of the chunk: the chunk is new to the index —
+the source has no entry (`Generated.C07.onWriteUnknownSourceSetsNewChk`), or its last known chunk is another one, or
+(7ea0278, `onWriteStaleSnapshotEntryIsNewChk`) the entry comes from the snapshot and does not account for the records in
+front of the batch (`firstRec > last.Recs`). The code tests `last.loaded` as well; in this sequential model an entry that
+is not fresh from the snapshot accounts for every record of its chunk (`onWrite` runs with every write), so
+`recs < beforeLen` already implies it — the flag matters only between a confirmed write and its notification, which is a
+schedule, exercised by the harness' race section. -/
+def onWriteNewChk (m : CMap) (src : Src) (cid : Nat) (beforeLen : Nat) : Bool :=
   match alookup m src with
   | none => onWriteUnknownSourceSetsNewChk
   | some sc =>
     match sc.getLast? with
     | none => onWriteUnknownSourceSetsNewChk
-    | some last => decide (last.id ≠ cid)
+    | some last => decide (last.id ≠ cid) || (onWriteStaleSnapshotEntryIsNewChk && decide (last.recs < beforeLen))
 
 /-- what the background rebuilder leaves (`rebuildIndex`): `rebuildIndexInt` walks every record of the chunk and
 `res.update(rInfo)` widens the hull by the true minimum and maximum -/
@@ -96,7 +101,7 @@ is the one after the rebuilder ran. This is the situation after a start without 
 that touches a partition is a write. -/
 def cindexOnWriteR (m : CMap) (src : Src) (cid : Nat) (before batch : List Int) (mn mx : Int) : CMap :=
   let m1 := cindexOnWrite m src cid mn mx (before.length + batch.length)
-  if onWriteNewChk m src cid && !before.isEmpty && onWriteNewChunkMidwayRebuilds then
+  if onWriteNewChk m src cid before.length && !before.isEmpty && onWriteNewChunkMidwayRebuilds then
     match alookup m1 src with
     | some sc =>
       match sc.getLast? with
